@@ -204,6 +204,23 @@ def run_case(case, rec):
         rec.violation("dyn-term/%s/%s" % (sigk, "per-component-weight" if nonuni else "value"),
                       "dynamic term %r, expected mean_i sum_c w_c r_c(p_i)^2 = %r (B=%d ncomp=%d w=%s)"
                       % (got, exp, B, case["ncomp"], wdyn), got=got, expected=exp)
+    # ---------------------------------------------------------------- the documented default: every weight 1.0
+    if case["seed"] % 4 == 1:
+        ld = guard.call(Loss, u=u, dynamic_loss=dyn, params=params, **kw)
+        td, tt = guard.call(ev, ld, params, batch)
+        rec.count("default_weight_losses")
+        e1 = dyn_expected(pts, np.ones(case["ncomp"]))
+        if not close(float(tt["dyn_loss"]), e1, 1e-8, 1e-10):
+            rec.violation("dyn-term/%s/default-weights" % sigk, "dynamic term %r of a loss built without loss_weights, "
+                          "expected %r (documented default 1.0)" % (float(tt["dyn_loss"]), e1))
+        for tname, wgiven in lwkw.items():
+            if tname != "dyn_loss" and float(terms[tname]) != 0.0:
+                # other configured terms scale with their weight: value with weight w == w * value with weight 1
+                if not close(float(terms[tname]), wgiven * float(tt[tname]), 1e-9, 1e-11):
+                    rec.violation("default-weights/%s/%s" % (sigk, tname), "term %s: %r with weight %r but %r with the default "
+                                  "weight (expected 1.0)" % (tname, float(terms[tname]), wgiven, float(tt[tname])))
+        if not close(float(td), sum(float(v) for v in tt.values()), 1e-12, 1e-14):
+            rec.violation("total-not-sum/%s/default-weights" % sigk, "total %r != sum of terms with default weights" % float(td))
     # ---------------------------------------------------------------- metamorphic relations
     a = 2.75
     loss_a = eqx.tree_at(lambda l: l.loss_weights.dyn_loss, loss, (jnp.asarray(wdyn) * a) if case["wvec"] else wdyn * a)
